@@ -8,7 +8,7 @@ from typing import Any, Dict, List, Optional, Set, Tuple
 
 from .. import materialize, rx
 from ..annot import AnnotateModel
-from ..core import Ctx, assigned_names, dotted, names_in, norm, stmts_local, walk_local
+from ..core import Ctx, Locals, assigned_names, dotted, names_in, norm, stmts_local, walk_local
 from ..paths import enumerate_paths
 from .c04 import dedupe_group_names
 from .c12 import from_match_rules
@@ -98,6 +98,13 @@ class Sign:
                 cur = par
             return False
         if isinstance(e, ast.Name):
+            # a dominating `name > 0` / `name >= 0` test
+            cur = e
+            while cur is not self.fn and getattr(cur, "parent", None) is not None:
+                par = cur.parent
+                if isinstance(par, ast.If) and cur in par.body and norm(par.test) in (f"{e.id} > 0", f"{e.id} >= 0", f"0 < {e.id}", f"0 <= {e.id}"):
+                    return True
+                cur = par
             defs = []
             for s in stmts_local(self.fn.body):
                 if isinstance(s, ast.Assign) and any(norm(t) == e.id for t in s.targets):
@@ -259,6 +266,16 @@ def rule_sign(ctx: Ctx, data):
                 else:
                     ok, why = sg.start_ok(v)
                     want = "a start override must be <= the start it extends"
+                if not ok:
+                    # the same through local aliases (`end0 = citation.span()[1]` ... `end0 + m.end()`)
+                    ve = Locals(fn).expand(v, node, stop=nf)
+                    for n_ in ast.walk(ve):
+                        for c_ in ast.iter_child_nodes(n_):
+                            c_.parent = n_
+                    ve.parent = getattr(v, "parent", None)
+                    ok2, why2 = sg.end_ok(ve, nf) if field in END_FIELDS else sg.start_ok(ve)
+                    if ok2:
+                        ok, why = ok2, why2 + " (through local aliases)"
                 ctx.ob("R-C02-4", f"{qual}/{field}", ok, f"{want}: {why}", node=node, mod=mod, statement=f"{field} = {norm(v)[:80]}")
     ctx.extra["span_override_stores"] = n
 
@@ -268,26 +285,20 @@ def rule_accessors(ctx: Ctx):
     m = repo.mod("models")
     sp = repo.need_func("models.CitationBase.span")
     S = sp.args.args[0].arg
-    rets = [r for r in walk_local(sp) if isinstance(r, ast.Return)]
-    ok = False
-    if len(rets) == 1 and isinstance(rets[0].value, ast.Tuple) and len(rets[0].value.elts) == 2:
-        a, b = rets[0].value.elts
-        ok = norm(a) == f"{S}.span_start if {S}.span_start is not None else {S}.token.start" and norm(b) == f"{S}.span_end if {S}.span_end is not None else {S}.token.end"
-    ctx.ob("R-C02-3", "models.CitationBase.span", ok, "span() is (override if not None else token offset) per component", node=sp, mod=m)
+    from ..symeval import fallback_accessor
+
+    ok = fallback_accessor(sp, [(f"{S}.span_start", f"{S}.token.start"), (f"{S}.span_end", f"{S}.token.end")])
+    ctx.ob("R-C02-3", "models.CitationBase.span", ok, "span() is (override if not None else token offset) per component (evaluated for all four None/not-None cases)",
+           node=sp, mod=m)
     fs = repo.need_func("models.CitationBase.full_span")
-    src = " ".join(norm(s) for s in fs.body if not (isinstance(s, ast.Expr) and isinstance(s.value, ast.Constant)))
-    rr = [r for r in walk_local(fs) if isinstance(r, ast.Return)]
-    okf = False
-    if len(rr) == 1 and isinstance(rr[0].value, ast.Tuple) and len(rr[0].value.elts) == 2 and all(isinstance(e, ast.Name) for e in rr[0].value.elts):
-        a, b = rr[0].value.elts[0].id, rr[0].value.elts[1].id
-        okf = all(x in src for x in (f"{a} = {S}.full_span_start", f"if {a} is None: {a} = {S}.span()[0]", f"{b} = {S}.full_span_end",
-                                       f"if {b} is None: {b} = {S}.span()[1]"))
-    ctx.ob("R-C02-3", "models.CitationBase.full_span", okf, "full_span() falls back, per component, to span()", node=fs, mod=m)
+    okf = fallback_accessor(fs, [(f"{S}.full_span_start", f"{S}.span()[0]"), (f"{S}.full_span_end", f"{S}.span()[1]")])
+    ctx.ob("R-C02-3", "models.CitationBase.full_span", okf, "full_span() falls back, per component, to span() (evaluated for all four None/not-None cases)", node=fs, mod=m)
     wp = repo.need_func("models.CitationBase.span_with_pincite")
     calls = {dotted(c.func): c for c in walk_local(wp) if isinstance(c, ast.Call) and dotted(c.func) in ("min", "max")}
     okw = False
     if "min" in calls and "max" in calls:
-        tmin, tmax = norm(calls["min"]), norm(calls["max"])
+        LW = Locals(wp)
+        tmin, tmax = LW.text(calls["min"], calls["min"]), LW.text(calls["max"], calls["max"])
         okw = all(x in tmin for x in (f"{S}.token.start", f"{S}.span_start", "pin_cite_span_start")) and all(
             x in tmax for x in (f"{S}.token.end", f"{S}.span_end", "pin_cite_span_end")) and "is not None" in tmin and "is not None" in tmax
         rets = [r for r in walk_local(wp) if isinstance(r, ast.Return)]
